@@ -184,20 +184,24 @@ def wiring(chk, r, n):
         log = []
 
         def rec_mut(genotype, reads, llk, n_alleles, log_unique_haplotypes, inbreeding=0, temp=1, read_counts=None, cache=None):
-            log.append(("mut", dict(F=inbreeding, T=float(temp), counts=np.array(read_counts).tolist())))
+            log.append(("mut", dict(F=inbreeding, T=float(temp), counts=np.array(read_counts).tolist(),
+                                    logU=float(log_unique_haplotypes), reads_ok=reads.shape == reads0.shape and bool(np.array_equal(reads, reads0, equal_nan=True)),
+                                    nall=np.array(n_alleles).tolist())))
             return llk, cache
 
         def rec_str(genotype, reads, llk, intervals, log_unique_haplotypes, inbreeding=0, step_type=0, randomize=True, temp=1,
                     read_counts=None, cache=None):
             log.append(("str", dict(F=inbreeding, T=float(temp), st=int(step_type), counts=np.array(read_counts).tolist(),
+                                    logU=float(log_unique_haplotypes), reads_ok=reads.shape == reads0.shape and bool(np.array_equal(reads, reads0, equal_nan=True)),
                                     intervals=np.array(intervals).tolist())))
             return llk, cache
 
         def rec_swap(genotype_i, llk_i, temp_i, genotype_j, llk_j, temp_j, log_unique_haplotypes, inbreeding=0):
-            log.append(("swap", dict(F=inbreeding, Ti=float(temp_i), Tj=float(temp_j))))
+            log.append(("swap", dict(F=inbreeding, Ti=float(temp_i), Tj=float(temp_j), logU=float(log_unique_haplotypes))))
             return llk_i, llk_j
         o1, o2, o3 = mutation.compound_step, structural.compound_step, amcmc.chain_swap_step
         mutation.compound_step, structural.compound_step, amcmc.chain_swap_step = rec_mut, rec_str, rec_swap
+        reads0 = reads
         steps = 3
         try:
             amcmc._denovo_assembler.py_func(genotype=g.copy(), inbreeding=F, reads=reads, read_counts=counts,
@@ -219,6 +223,8 @@ def wiring(chk, r, n):
         okp = True
         for kind, d in log:
             okp &= d["F"] == F and (kind == "swap" or d["counts"] == counts.tolist())
+            # (run as plain Python, np.log of the int8 allele numbers is a float16: 1e-2 still separates any two allele-number vectors)
+            okp &= abs(d["logU"] - logU) <= 1e-2 and d.get("reads_ok", True) and d.get("nall", n_alleles) == n_alleles
             if kind == "mut":
                 got.append(("mut", d["T"]))
             elif kind == "str":
@@ -231,9 +237,62 @@ def wiring(chk, r, n):
         if not okp or got != [tuple(float(x) if not isinstance(x, str) else x for x in e) for e in expect]:
             chk.violation("the assembler loop does not run, for every step and every chain, mutation sweep / recombination sweep / "
                           "interval dosage sweep / full-length dosage sweep with that chain's temperature and the sample's inbreeding, "
-                          "followed by an exchange with the next hotter chain",
+                          "followed by an exchange with the next hotter chain (each with the sample's reads, counts, allele numbers and log(#haplotypes))",
                           {**case, "temperatures": temps.tolist(), "observed": got[:12], "expected": [list(e) for e in expect[:12]]},
                           "C01/wiring/assembler")
+
+        # ---- DenovoMCMC.fit -> _denovo_assembler (no position screened out: fix_homozygous above 1)
+        import inspect
+        seen = []
+        sig_a = inspect.signature(amcmc._denovo_assembler.py_func)
+
+        def rec_asm(*a, **kw):
+            d = dict(sig_a.bind(*a, **kw).arguments)
+            seen.append(d)
+            k = len(seen)
+            n_t = 1
+            return (np.full((n_t, int(d["steps"]), ploidy, n_base), k % 2, dtype=np.int8), np.full((n_t, int(d["steps"])), -float(k)))
+        o4 = amcmc._denovo_assembler
+        temps_u = [float(x) for x in temps[::-1]]              # given unsorted; the sampler wants them ascending
+        probs = (r.choice([0.25, 0.5]), r.choice([0.3, 0.6]), r.choice([0.1, 0.9]))
+        n_ch = r.choice([1, 2, 3])
+        amcmc._denovo_assembler = rec_asm
+        try:
+            model = amcmc.DenovoMCMC(ploidy=ploidy, n_alleles=n_alleles, inbreeding=F, steps=7, chains=n_ch, fix_homozygous=2.0,
+                                     recombination_step_probability=probs[0], partial_dosage_step_probability=probs[1],
+                                     dosage_step_probability=probs[2], temperatures=temps_u, random_seed=5, llk_cache_threshold=13)
+            tr = model.fit(reads, read_counts=counts)
+        finally:
+            amcmc._denovo_assembler = o4
+        chk.count("wiring:DenovoMCMC.fit")
+        chk.case(("wiring", "fit", it, n_ch), True)
+        bad = None
+        if len(seen) != n_ch:
+            bad = "not one sampler run per chain"
+        for k, d in enumerate(seen):
+            if float(d["inbreeding"]) != F:
+                bad = "inbreeding"
+            elif not np.array_equal(np.asarray(d["read_counts"]), counts):
+                bad = "read_counts"
+            elif not (np.asarray(d["reads"]).shape == reads.shape and np.array_equal(np.asarray(d["reads"]), reads, equal_nan=True)):
+                bad = "reads"
+            elif np.asarray(d["n_alleles"]).tolist() != n_alleles:
+                bad = "n_alleles"
+            elif [float(x) for x in np.asarray(d["temperatures"])] != sorted(temps_u):
+                bad = "temperatures (ascending, ending in 1)"
+            elif int(d["steps"]) != 7 or int(d["llk_cache_threshold"]) != 13:
+                bad = "steps / llk_cache_threshold"
+            elif (float(d["recombination_step_probability"]), float(d["partial_dosage_step_probability"]),
+                  float(d["dosage_step_probability"])) != probs:
+                bad = "step probabilities"
+            elif np.asarray(d["genotype"]).shape != (ploidy, n_base) or \
+                    any(int(a) < 0 or int(a) >= n_alleles[j] for row in np.asarray(d["genotype"]) for j, a in enumerate(row)):
+                bad = "initial genotype (shape / alleles within each site's allele number)"
+            elif not (np.asarray(tr.genotypes[k]) == (k + 1) % 2).all() or not (np.asarray(tr.llks[k]) == -float(k + 1)).all():
+                bad = "trace (not what the chains returned, chain by chain)"
+        if bad:
+            chk.violation(f"DenovoMCMC.fit hands _denovo_assembler the wrong {bad}" if bad != "not one sampler run per chain" else
+                          "DenovoMCMC.fit: " + bad, {**case, "chains": n_ch, "temperatures_given": temps_u}, "C01/wiring/fit")
 
 
 def run(tier, replay=None):
